@@ -65,7 +65,7 @@ CLAIMED = {
              "word, every number of matches and EVERY environment and exception (by induction on the scan of the interpreter port): `a > t / env` returns, if it "
              "returns a word, a word obtained by rewriting runs of `a` into `t` and nothing else (basic_scan_sound_env: same syllables, stress, tone; without an "
              "environment it also cannot fail, basic_scan_sound); and `X > [features] / env`, X any single-segment element, keeps the shape of the word "
-             "(feature_rule_keeps_shape). What is missing for the full property is completeness (every selected occurrence IS rewritten) - decided by the "
+             "(feature_rule_keeps_shape), and `X > t / env` keeps syllables, stress and tone (replacement_rule_keeps_prosody). What is missing for the full property is completeness (every selected occurrence IS rewritten) - decided by the "
              "reference interpreter.",
         note="Trusted: harness reference interpreter (frag.rs), hooks, generators. Not a proof of the property: validation of model and code against "
              "the documented semantics on generated inputs.",
@@ -172,7 +172,7 @@ CLAIMED = {
         technique="Lean 4 theorems (filters, termination/cycle rejection, cache invariant) on a hand model + plan correspondence + end-to-end runs of the real binary on generated project trees",
         design="§4 C20"),
     "C14": dict(
-        text="Proved over the port of syll.rs, for any run length, position and syllable: a matrix naming no length/stress/tone leaves the syllable's stress, tone and segment count unchanged and reports no length change, and touches no segment outside the run; apply_syll_mods (stress/tone setting) never touches a segment; joining and splitting syllables keep every segment in order. End to end (Props/C14Scan, by induction over the whole scan of the interpreter port, any word, any number of matches, ANY environment and exception): a segmental rule `X > [features]` leaves every syllable's stress, tone and segment count as they were and creates or removes no syllable (segmental_rule_keeps_prosody); a literal replacement `a > t` keeps syllables, stress and tone (literal_rule_keeps_prosody). PARTIAL: the converse direction (prosodic rules keep the segmental tier across the whole scan), multi-element inputs and rules with several sub-rules are decided by c14-spec and the correspondence.",
+        text="Proved over the port of syll.rs, for any run length, position and syllable: a matrix naming no length/stress/tone leaves the syllable's stress, tone and segment count unchanged and reports no length change, and touches no segment outside the run; apply_syll_mods (stress/tone setting) never touches a segment; joining and splitting syllables keep every segment in order. End to end (Props/C14Scan, by induction over the whole scan of the interpreter port, any word, any number of matches, ANY environment and exception): a segmental rule `X > [features]` leaves every syllable's stress, tone and segment count as they were and creates or removes no syllable (segmental_rule_keeps_prosody), also for whole rules all of whose sub-rules are segmental, e.g. condensed rules (segmental_rule_keeps_shape); a literal replacement `a > t` keeps syllables, stress and tone (literal_rule_keeps_prosody). PARTIAL: the converse direction (prosodic rules keep the segmental tier across the whole scan), multi-element inputs and rules with several sub-rules are decided by c14-spec and the correspondence.",
         note='Trusted: Lean kernel, standard axioms (+ bv_decide certificates where the bit layer is used); the hand port of subrule.rs/rule.rs/syll.rs (Model/Interp), tied to the code on every run by the interp-ops correspondence (identical outcome class and word on ~27k generated cases quick / 400k thorough, release profile); generators and labels of the search.',
         technique='Lean 4 component theorems + whole-scan induction on the port + correspondence + tier-preservation search',
         design="§4 C14"),
